@@ -213,12 +213,9 @@ pub fn query_vars(
     let mut client = GameSpy3::new(address, timeout_settings)?;
     let packets = client.get_server_packets()?;
 
-    let mut vars = HashMap::new();
-
-    for packet in &packets {
-        let (key_values, _remaining_data) = data_to_map(packet)?;
-        vars.extend(key_values);
-    }
+    // the variables are in the first packet (as in `query`); the others carry
+    // player and team sections, which are not key/value pairs
+    let (vars, _remaining_data) = data_to_map(packets.first().ok_or(GDErrorKind::PacketBad)?)?;
 
     Ok(vars)
 }
